@@ -91,6 +91,7 @@ impl Pol {
             pending_reads: self.pend_r.iter().copied().collect::<BTreeSet<_>>(),
             pending_writes: self.pend_w.iter().copied().collect::<BTreeSet<_>>(),
             pending_flushes: self.pend_f.iter().copied().collect::<BTreeSet<_>>(),
+            deliver_on_flush: false,
             cut_after: self.cut,
             flips: self.flips.clone(),
         }
